@@ -194,6 +194,18 @@ func (p *ProofD) reconstructRangeProofStructures(pk *gabikeys.PublicKey) error {
 	return nil
 }
 
+// disjointIndices checks that no attribute index is reported both as disclosed and as hidden.
+// Otherwise a holder could split a signed attribute m into a "disclosed" part x and a hidden
+// remainder m-x, making the proof report a value x that was never signed.
+func (p *ProofD) disjointIndices() bool {
+	for i := range p.ADisclosed {
+		if _, hidden := p.AResponses[i]; hidden {
+			return false
+		}
+	}
+	return true
+}
+
 // correctResponseSizes checks the sizes of the elements in the ProofD proof.
 func (p *ProofD) correctResponseSizes(pk *gabikeys.PublicKey) bool {
 	minimum := big.NewInt(0)
@@ -290,6 +302,7 @@ func (p *ProofD) VerifyWithChallenge(pk *gabikeys.PublicKey, reconstructedChalle
 	}
 	// Range proofs were already validated during challenge reconstruction
 	return notrevoked &&
+		p.disjointIndices() &&
 		p.correctResponseSizes(pk) &&
 		p.C.Cmp(reconstructedChallenge) == 0
 }
